@@ -75,4 +75,25 @@ def rrun (d : Discipline) (s : RState) (os : List Outcome) : RState := os.foldl 
 def settle (d : Discipline) (s : RState) : RState :=
   if s.closerAlive ∧ s.ctxDone then { (closeSock s) with closerAlive := false } else s
 
+/-! ### The socket constructors of lib/rsocks
+
+`getSendSock` / `getRecvSock`: `syscall.Socket`, then set-up calls (bind, set non-blocking) each of which may fail; on a
+failure the function returns the error. `closes[i]` is whether the code closes the descriptor before the i-th such return
+(extracted from the source by factgen: `Facts.ctorSendCloses`, `Facts.ctorRecvCloses`). -/
+
+structure CtorRun where
+  opened : Nat
+  closed : Nat
+  handedOut : Bool      -- success: the descriptor now belongs to the caller (whose discipline is one of the three above)
+deriving DecidableEq, Repr
+
+/-- Run the set-up steps: `fails[i]` says whether step i fails (a missing entry: it succeeds). -/
+def ctorSteps : List Bool → List Bool → CtorRun
+  | [], _ => ⟨1, 0, true⟩
+  | c :: cs, fails =>
+    if fails.headD false then ⟨1, if c then 1 else 0, false⟩ else ctorSteps cs fails.tail
+
+def ctorRun (closes : List Bool) (sockFails : Bool) (fails : List Bool) : CtorRun :=
+  if sockFails then ⟨0, 0, false⟩ else ctorSteps closes fails
+
 end PsaDhcp
